@@ -5,6 +5,7 @@ import copy
 import itertools
 import json
 import os
+import sys
 import tempfile
 
 import gen_docs
@@ -1394,6 +1395,7 @@ P.PROPS["C02"]["search"] = search_c02
 def c19_keywords(ctx):
     reqs = []
     indents = ["", " ", "   "] if S.n_for(0, 1) == 0 else ["", " ", "  ", "   ", "\t"]
+    deep = ["    ", "      ", " \t ", "         "] if S.n_for(0, 1) == 0 else ["    ", "     ", "      ", " \t ", "\t\t", "         ", " " * 17]
     for code, role, k in S.all_keywords():
         ms = S.mstate(code)
         if role in S.TITLE_ROLES:
@@ -1401,6 +1403,9 @@ def c19_keywords(ctx):
             for depth in range(0, 8):
                 for ind in indents:
                     reqs.append(("match_md", [kind, ms, False, ind + "#" * depth + " " + k + ": the title \n", 4]))
+            for depth in (1, 2, 6):
+                for ind in deep:     # any indentation: four or more blanks do not make the line a code block
+                    reqs.append(("match_md", [kind, ms, False, ind + "#" * depth + " " + k + ": deep title\n", 4]))
             reqs.append(("match_md", [kind, ms, False, "##" + k + ": no blank\n", 4]))
             reqs.append(("match_md", [kind, ms, False, "##\t" + k + ":tab\r\n", 4]))
             reqs.append(("match_md", [kind, ms, False, k + ": no header prefix\n", 4]))
@@ -1411,6 +1416,8 @@ def c19_keywords(ctx):
                 for ind in indents:
                     for gap in ("", " ", "  "):
                         reqs.append(("match_md", ["StepLine", ms, False, ind + b + gap + k + "step text \n", 7]))
+            for ind in deep[:3]:
+                reqs.append(("match_md", ["StepLine", ms, False, ind + "* " + k + "deep step\n", 7]))
             reqs.append(("match_md", ["StepLine", ms, False, k + "no bullet\n", 7]))
             reqs.append(("match_md", ["StepLine", ms, False, "# " + k + "header not bullet\n", 7]))
     return differential("md-keywords", reqs, nontrivial=lambda q, r: (q[1][1]["dialect"], q[1][3]) if r.get("ans") else None,
@@ -2143,7 +2150,33 @@ def o_source_files(pid):
                 return None
             finally:
                 shutil.rmtree(d, ignore_errors=True)
-        return oracle("source-files", texts, check, describe=lambda t: t[:80])
+        def check_seq(seq):
+            # a sequence of paths, one of them named more than once: one source envelope per path given, in the order given
+            d = tempfile.mkdtemp(prefix="verif-src-")
+            try:
+                paths = {}
+                for i in sorted(set(seq)):
+                    paths[i] = os.path.join(d, "f%d.feature" % i)
+                    with open(paths[i], "w", encoding="utf8", newline="") as f:
+                        f.write(texts[i])
+                evs = list(SourceEvents([paths[i] for i in seq]).enum())
+                got = [(e.get("source", {}).get("uri"), e.get("source", {}).get("data")) for e in evs]
+                want = [(paths[i], texts[i]) for i in seq]
+                if got != want:
+                    return {"what": "SourceEvents over %d paths (with repetitions) did not yield one source per path in order" % len(seq),
+                            "got_uris": [os.path.basename(u or "") for u, _ in got], "want_uris": [os.path.basename(u) for u, _ in want]}
+                def uris(res):
+                    return [(k, (e[k].get("source", e[k]) if k == "parseError" else e[k]).get("uri")) for e in res.get("envelopes", []) for k in e]
+                via = uris(impl.events(True, True, True, False, [[u, t] for u, t in got]))
+                alone = [x for i in seq for x in uris(impl.events(True, True, True, False, [[paths[i], texts[i]]]))]
+                if via != alone:
+                    return {"what": "the stream over a path sequence with repetitions lost or reordered a source's envelopes", "got": via, "want": alone}
+                return None
+            finally:
+                shutil.rmtree(d, ignore_errors=True)
+        c = oracle("source-files", texts, check, describe=lambda t: t[:80])
+        c2 = oracle("source-path-sequences", [[0, 1, 0], [3, 0, 3, 3], [2], [], [4, 1, 4, 0, 1], [6, 6]], check_seq, describe=repr)
+        return [c, c2]
     run.__name__ = "o_source_files_" + pid
     return run
 
@@ -2613,3 +2646,90 @@ def o_c17_eager_iterators(ctx):
 
 P.PROPS["C17"]["streams"].append(o_c17_eager_iterators)
 P.PROPS["C15"]["streams"].append(o_c17_eager_iterators)
+
+
+def c03_title_shapes(ctx):
+    """the name of a keyword line is the rest of the line after the keyword and ONE colon, trimmed: names that begin with
+    colons, comment / tag / table / doc-string characters, names that are keywords, names made of blanks"""
+    names = [":x", "::module::login", ":", "::", ":::", " :x", ": :", ":x:", "#x", " # not a comment", "@x", "|x|", '"' * 3, "```", "Given x", "Feature: nested",
+             "x:", "  x : y  ", "\\:", "*", "* x", "<a>", ":\t:", "\u00a0:\u00a0", "-", "--", ":-)"]
+    srcs = []
+    for nm in names:
+        srcs.append("Feature:%s\n  Rule:%s\n    Background:%s\n      Given g\n    Scenario:%s\n      Given h\n    Scenario Outline:%s\n      Given <a>\n      Examples:%s\n        | a |\n        | 1 |\n"
+                    % (nm, nm, nm, nm, nm, nm))
+        srcs.append("Feature:%s\n  Example:%s\n    Given g\n  Scenario Template:%s\n    Given <a>\n    Scenarios:%s\n      | a |\n" % (nm, nm, nm, nm))
+    return e2e("title-shapes", srcs, P.p_ast_text, nontrivial=nt_accepted("ast"), exhaustive=True)
+
+
+P.PROPS["C03"]["streams"].append(c03_title_shapes)
+P.PROPS["C04"]["streams"].append(c03_title_shapes)
+
+
+def c02_unclosed_rows(ctx):
+    """a line whose first non-blank character is '|' is a table row wherever the grammar reads one, whatever follows the
+    '|' -- also a row without a closing '|' (zero cells): after a step it opens the data table, after an Examples line the
+    examples table; a step after such an examples row is not a sentence"""
+    rows = ["|", "| a", "|\t", "|   x", "|x", "| ", "|\\", "|\\|", "| a | b", "||", "| a |"]
+    srcs = []
+    for rw in rows:
+        srcs.append("Feature: f\n  Scenario: s\n    Given g\n      %s\n" % rw)
+        srcs.append("Feature: f\n  Scenario: s\n    Given g\n      %s\n      %s\n    When h\n" % (rw, rw))
+        srcs.append("Feature: f\n  Scenario Outline: o\n    Given <a>\n    Examples:\n      %s\n" % rw)
+        srcs.append("Feature: f\n  Scenario Outline: o\n    Given <a>\n    Examples:\n      %s\n    Given too late\n" % rw)
+        srcs.append("Feature: f\n  Rule: r\n    Scenario Outline: o\n      Given <a>\n      @t\n      Examples:\n      %s\n      %s\n\n      # c\n      Examples: again\n      %s\n" % (rw, rw, rw))
+        srcs.append("Feature: f\n  %s\n  Scenario: s\n" % rw)       # where no row is expected: free text
+    return e2e("unclosed-rows", srcs, P.p_ast_text, modes=(False, True), nontrivial=lambda q, x: q[1][2][:70], exhaustive=True)
+
+
+P.PROPS["C02"]["streams"].append(c02_unclosed_rows)
+P.PROPS["C12"]["streams"].append(c02_unclosed_rows)
+
+
+def o_hash_seeds(ctx):
+    """parsing and compiling do not depend on the interpreter's string-hash seed: fresh interpreters started with
+    different PYTHONHASHSEED values produce byte-identical ASTs, pickles and errors for the same documents
+    (repeated tag names, many tags, repeated cells, repeated step texts included)"""
+    import subprocess, hashlib
+    from common import REPO
+    docs = ["@a @b @c @a\nFeature: f\n  @d @a @e\n  Scenario: s\n    Given g\n",
+            "@smoke @x @y\nFeature: f\n  @z @smoke\n  Rule: r\n    @w @x\n    Scenario Outline: o\n      Given <a>\n      @q @smoke @r\n      Examples:\n        | a |\n        | 1 |\n        | 1 |\n",
+            "Feature: f\n  Background:\n    Given b\n  Scenario: s\n    Given g\n      | a | a | b |\n      | 1 | 1 | 2 |\n    And g\n    And g\n",
+            "@t1 @t2 @t3 @t4 @t5 @t6 @t7 @t8 @t9 @t1 @t2\nFeature: many\n  Scenario: s\n    * x\n",
+            "Feature: bad\n  oops\n  @a @b @a\n  nope\n", "# language: fr\n@é @è @é\nFonctionnalité: f\n  @ê @é\n  Scénario: s\n    Soit x\n"]
+    script = ("import sys, json\nfrom gherkin.parser import Parser\nfrom gherkin.pickles.compiler import Compiler\nfrom gherkin.stream.id_generator import IdGenerator\n"
+              "from gherkin.ast_builder import AstBuilder\nfrom gherkin.errors import CompositeParserException, ParserException\n"
+              "docs = json.loads(sys.stdin.read())\nout = []\n"
+              "for d in docs:\n"
+              "    ids = IdGenerator()\n"
+              "    try:\n"
+              "        ast = Parser(AstBuilder(ids)).parse(d)\n"
+              "        ast['uri'] = 'u'\n"
+              "        out.append([ast, Compiler(ids).compile(ast)])\n"
+              "    except CompositeParserException as e:\n"
+              "        out.append([str(x) for x in e.errors])\n"
+              "    except ParserException as e:\n"
+              "        out.append([str(e)])\n"
+              "sys.stdout.write(json.dumps(out))\n")
+    env0 = dict(os.environ, PYTHONPATH=os.path.join(REPO, "python"), PYTHONDONTWRITEBYTECODE="1")
+    outs = {}
+    for seed in ("0", "1", "2", "77", "12345", "4294967295")[:S.n_for(4, 6)]:
+        pr = subprocess.run([sys.executable, "-c", script], input=json.dumps(docs), capture_output=True, text=True, env=dict(env0, PYTHONHASHSEED=seed), timeout=120)
+        outs[seed] = pr.stdout if pr.returncode == 0 else "exit %d: %s" % (pr.returncode, pr.stderr[-300:])
+    ref = outs["0"]
+
+    def check(i):
+        per = {}
+        for seed, o in outs.items():
+            try:
+                per[seed] = json.dumps(json.loads(o)[i])
+            except Exception:
+                per[seed] = o[:200]
+        if len(set(per.values())) != 1:
+            a, b = sorted(set(per.values()))[:2]
+            return {"what": "result depends on PYTHONHASHSEED", "document": docs[i], "one": a[:400], "other": b[:400], "seeds": sorted(per)}
+        return None
+    return oracle("hash-seeds", list(range(len(docs))), check, describe=lambda i: docs[i][:60])
+
+
+P.PROPS["C15"]["streams"].append(o_hash_seeds)
+P.PROPS["C08"]["streams"].append(o_hash_seeds)
